@@ -174,6 +174,28 @@ def run_case(case, acc):
             except Exception as e:
                 acc.violation(f"C08:raised_in_history:{type(e).__name__}", {**case, "second_handler": j}, f"{tag}: A, B, A history raised {e!r}")
                 ok = False
+        # the same scenario seen through a single-instance class group on label 1 (one instance per side if present at all)
+        if case["dim"] == 1 and itype != "MATCHED" and name in ("none", "empty_pred", "empty_ref"):
+            from panoptica.utils.label_group import LabelGroup
+            from panoptica.utils.segmentation_class import SegmentationClassGroups
+
+            acc.step()
+            try:
+                evg = make_evaluator(itype, matcher=matcher, backend="default" if itype == "SEMANTIC" else "none", decision=decision, handler=hc,
+                                     groups=SegmentationClassGroups({"solo": LabelGroup([1], single_instance=True), "rest": LabelGroup([2, 3, 4])}))
+                og = observe(evg.evaluate(pred.copy(), ref.copy(), verbose=False)["solo"][0], metrics=METS, with_global=False)
+                e_fp, e_fn = int(np.any(pred == 1)), int(np.any(ref == 1))
+                if (og["tp"], og["fp"], og["fn"]) != (0, e_fp, e_fn):
+                    acc.violation(f"C08:single_instance_group:counts:{name}", case, f"{tag} through a single-instance group: tp/fp/fn={og['tp']}/{og['fp']}/{og['fn']} expected 0/{e_fp}/{e_fn}")
+                    ok = False
+                for m in METS:
+                    exp = ECR_VALUE[hc["metrics"][m][SCEN_IDX[scen]]]
+                    if not same_value(og["sq_" + m], exp, exact=True):
+                        acc.violation(f"C08:single_instance_group:sq:{scen}", case, f"{tag} through a single-instance group: sq_{m}={og['sq_' + m]!r} but the handler assigns {exp!r} to {scen}")
+                        ok = False
+            except Exception as e:
+                acc.violation(f"C08:single_instance_group:raised:{type(e).__name__}", case, f"{tag} through a single-instance group raised {e!r}")
+                ok = False
         if ok:
             acc.ok()
         return
